@@ -620,8 +620,7 @@ class PendingAssign(PendingNode[Assign | AnnAssign]):
     def assign_subscript(self, target: Subscript, value: expr):
         # rewrite the names first: the call to slice() built below is not user code
         _slice = expr_transf(self.nsp, target.slice)
-        if isinstance(_slice, Slice):
-            _slice = utils.convert_slice(_slice)
+        _slice = utils.convert_index(_slice)
 
         return Call(
             func=Attribute(
@@ -814,8 +813,7 @@ class PendingAugAssign(PendingNode[AugAssign]):
 
             # rewrite the names first: the call to slice() built below is not user code
             slice_expr = expr_transf(self.nsp, target.slice)
-            if isinstance(slice_expr, Slice):
-                slice_expr = utils.convert_slice(slice_expr)
+            slice_expr = utils.convert_index(slice_expr)
 
             # save slice expr to a tmp
             return_list.append(
